@@ -159,6 +159,39 @@ Proof.
     + cbn [compile]. eapply run_ops_cons; [exact R2|reflexivity].
     + do 7 eexists. split; [reflexivity|]. exact T2.
     + cbn [astep]. now apply forallb_l_remove.
+  - (* Entry::push *)
+    cbn [aop_in_range] in Hr. apply Nat.ltb_lt in Hr.
+    destruct (list_split_at f i Hr) as (fa & e0 & fb & -> & <-).
+    destruct (new_rel_runs r ts tid ri _ a b c d Hc HT) as (txt & R1 & Ne).
+    pose proof (get_entry_runs fa e0 fb (ts ++ [mk_slot true 0 (crel_tree r)]) tid ri a b c
+                  (Some (mk_hnd (length ts) [])) (nth_error_app_l _ _ _ _ HT)) as R2.
+    destruct (epush_runs fa e0 fb r (ts ++ [mk_slot true 0 (crel_tree r)]) tid ri b c (length ts) 0
+                (nth_error_app_l _ _ _ _ HT) (nth_error_app_at _ _)) as (ts3 & a3 & b3 & c3 & x & R3 & T3).
+    destruct (plain_field_split _ _ _ Hp) as (Pa & Pe & Pb).
+    eexists. split; [|split].
+    + cbn [compile]. eapply run_ops_cons; [exact R1|]. eapply run_ops_cons; [exact R2|].
+      eapply run_ops_cons; [exact R3|reflexivity].
+    + do 7 eexists. split; [reflexivity|]. cbn [astep]. rewrite upd_nth_app_r. exact T3.
+    + cbn [astep]. rewrite upd_nth_app_r. apply plain_field_join; auto.
+      unfold plain_entry in *. rewrite forallb_app. cbn [forallb]. rewrite Pe.
+      unfold new_only in Hc. apply andb_prop in Hc. now rewrite (proj1 Hc).
+  - (* Entry::replace *)
+    cbn [aop_in_range] in Hr.
+    destruct (rel_in_range_split f i j Hr) as (fa & ra & r0 & rb & fb & -> & <- & <-).
+    destruct (new_rel_runs r ts tid ri _ a b c d Hc HT) as (txt & R1 & Ne).
+    pose proof (get_entry_runs fa (ra ++ r0 :: rb) fb (ts ++ [mk_slot true 0 (crel_tree r)]) tid ri a b c
+                  (Some (mk_hnd (length ts) [])) (nth_error_app_l _ _ _ _ HT)) as R2.
+    destruct (ereplace_runs fa ra r0 rb fb r (ts ++ [mk_slot true 0 (crel_tree r)]) tid ri b c (length ts) 0
+                (nth_error_app_l _ _ _ _ HT) (nth_error_app_at _ _) ltac:(congruence))
+      as (ts3 & a3 & b3 & c3 & x & R3 & T3).
+    destruct (plain_field_split _ _ _ Hp) as (Pa & Pe & Pb).
+    destruct (plain_entry_split _ _ _ Pe) as (Pra & Pr0 & Prb).
+    eexists. split; [|split].
+    + cbn [compile]. eapply run_ops_cons; [exact R1|]. eapply run_ops_cons; [exact R2|].
+      eapply run_ops_cons; [exact R3|reflexivity].
+    + do 7 eexists. split; [reflexivity|]. cbn [astep]. rewrite upd_nth_app_r, l_replace_app_len. exact T3.
+    + cbn [astep]. rewrite upd_nth_app_r, l_replace_app_len. apply plain_field_join; auto.
+      apply plain_entry_join; auto. unfold new_only in Hc. apply andb_prop in Hc. tauto.
   - (* remove_relation *)
     cbn [aop_in_range] in Hr. cbn [compile astep].
     destruct (rel_in_range_split f i j Hr) as (fa & ra & r0 & rb & fb & -> & <- & <-).
